@@ -209,6 +209,7 @@ def stepLine (env : Env) (tgt : StdT.Target) (w : World) (line : String) : World
   match ((specLine line).orElse (fun _ => queryLine env line)).orElse
       (fun _ => if env.cfg.arch == .x86_64 && env.cpu.avx2 then intrinLine (line.trimAscii.toString.splitOn " ")
                 else if env.cfg.arch == .wasmSimd then intrinLineWasm (line.trimAscii.toString.splitOn " ")
+                else if env.cfg.arch == .aarch64 then intrinLineNeon (line.trimAscii.toString.splitOn " ")
                 else (if (line.trimAscii.toString.splitOn " ").headD "" == "intrin" then some "none" else none)) with
   | some s => (w, s)
   | none =>
